@@ -109,7 +109,7 @@ func (r *responseCache) Commit(
 		if err = r.cache.Set(responseID, data); err != nil {
 			return
 		}
-		current, _ := r.GetRefs(urlKey) // absent or unreadable: start afresh
+		current, _ := r.GetRefs(urlKey)                 // absent or unreadable: start afresh
 		before := slices.Collect(current.ResponseIDs()) // (update may change current in place)
 		next := update(current)
 		if err = r.SetRefs(urlKey, next); err != nil {
